@@ -1,5 +1,6 @@
 (* Model of langserver/check/compiler/lexer/lexer.go (after the two `fix:` commits on consumeEOL and the
-   long-bracket clamp). Eager: the whole token list is produced up front; DESIGN/C01 explains why this is
+   long-bracket clamp, and - under the flag fx_escape, see FxEscape below - the repair of readEscapeSequence).
+   Eager: the whole token list is produced up front; DESIGN/C01 explains why this is
    observationally equal to the lazy Go lexer (tokens do not depend on the parser; lexical errors are attached
    to the token during whose scan they are raised, and the parser model counts those of the tokens it consumed).
 
@@ -122,7 +123,8 @@ Inductive lexerr :=
 | LeUnfinishedStr    (* unfinished string *)
 | LeMissingClose     (* missing `]]` *)
 | LeBadLongDelim     (* invalid long string delimiter *)
-| LeMalformedNumber.
+| LeMalformedNumber
+| LeBadEscape.       (* invalid escape sequence (raised by the repaired readEscapeSequence only) *)
 
 Record cline := mkCline { cl_str : list N; cl_line : Z; cl_col : Z }.
 Record cinfo := mkCinfo { ci_lines : list cline; ci_short : bool; ci_head : bool }.
@@ -254,8 +256,45 @@ Fixpoint skip_digits_f (fuel : nat) (ch : list N) (i : nat) : nat :=
 Definition go_string_of_byte (c : N) : list N :=
   if c <? 128 then [c] else [192 + c / 64; 128 + c mod 64].
 
+(* ------------------------------------------------------------------ the repair of readEscapeSequence (C03)
+   fx_escape = false : readEscapeSequence as it was (`\x` without two hex digits, a decimal escape above 255, `\u...`
+                       and any other character after a backslash are taken as they come, no error);
+   fx_escape = true  : the repaired function (fixes/C03-invalid-escape.diff): the same pieces, the same positions,
+                       plus the error "invalid escape sequence" (LeBadEscape) in exactly those cases; `\u{XXX}` is
+                       checked (at least one hex digit, closing brace, value below 2^31).
+   The flag is an implicit argument (a class with one field) of every function from read_escape up to lex_all:
+   existing statements `lex_all gbk_runes bs` read `@lex_all fx_deployed gbk_runes bs` (the instance below, = the
+   code in /repo); a lemma proved in a section with `Context {fx : FxEscape}` holds for both variants;
+   `lex_all (fx := false)` is the code before the repair. *)
+Class FxEscape := fx_escape : bool.
+
+(* escapeError is raised (repaired code only) when [bad] *)
+Definition esc_err {fx : FxEscape} (bad : bool) : list lexerr := if fx_escape && bad then [LeBadEscape] else [].
+
+(* the decimal branch's `value`: the first n (= 3) digits at most *)
+Fixpoint dec_value (n : nat) (l : list N) (acc : N) : N :=
+  match n, l with
+  | S n', c :: t => if is_digit c then dec_value n' t (acc * 10 + (c - 48)) else acc
+  | _, _ => acc
+  end.
+
+(* isUtf8Escape: `{`, one or more hex digits with value below 2^31, `}` *)
+Definition hex_digit_value (c : N) : N :=
+  if 97 <=? c then c - 97 + 10 else if 65 <=? c then c - 65 + 10 else c - 48.
+Fixpoint utf8_esc_loop (l : list N) (value : N) (digits : bool) : bool :=
+  match l with
+  | [] => false
+  | c :: t =>
+    if is_hex_digit c then
+      let v := value * 16 + hex_digit_value c in
+      if 2147483648 <=? v then false else utf8_esc_loop t v true
+    else (c =? 125) && digits
+  end.
+Definition is_utf8_escape (l : list N) : bool :=
+  match l with c :: t => (c =? 123) && utf8_esc_loop t 0 false | [] => false end.
+
 (* readEscapeSequence at index i (the byte after the backslash); Fault IndexRange mirrors l.chunk[*i] in consumeEOL *)
-Definition read_escape (ch : list N) (i : nat) (ln ls p0 : Z) : list N * nat * Z * Z * list lexerr :=
+Definition read_escape {fx : FxEscape} (ch : list N) (i : nat) (ln ls p0 : Z) : list N * nat * Z * Z * list lexerr :=
   match nth_byte ch i with
   | None => ([], i, ln, ls, [LeUnfinishedStr])       (* unreachable from scan_short_string (guarded by i < len) *)
   | Some c =>
@@ -270,9 +309,12 @@ Definition read_escape (ch : list N) (i : nat) (ln ls p0 : Z) : list N * nat * Z
       match nth_byte ch (S i), nth_byte ch (S (S i)) with
       | Some h1, Some h2 =>
         if is_hex_digit h1 && is_hex_digit h2 then (92 :: [c; h1; h2], (i + 3)%nat, ln, ls, [])
-        else ([92; 120], S i, ln, ls, [])
-      | _, _ => ([92; 120], S i, ln, ls, [])
+        else ([92; 120], S i, ln, ls, esc_err true)
+      | _, _ => ([92; 120], S i, ln, ls, esc_err true)
       end
+    else if c =? 117 then                             (* u : `case 'u'` of the repaired code; before the repair the
+                                                         default branch returned the same piece string(oneChar) = "u" *)
+      ([c], S i, ln, ls, esc_err (negb (is_utf8_escape (skipn (S i) ch))))
     else if is_newline c then
       let '(ok, i', ln', ls') := consume_eol ch i ln ls p0 in
       ([10], i', ln', ls', if ok then [] else [LeUnfinishedStr])
@@ -282,11 +324,12 @@ Definition read_escape (ch : list N) (i : nat) (ln ls p0 : Z) : list N * nat * Z
       ([], i', ln', ls', [])
     else if is_digit c then
       let j := skip_digits_f (S (length ch)) ch (S i) in
-      (92 :: firstn (j - i) (skipn i ch), j, ln, ls, [])
-    else (go_string_of_byte c, S i, ln, ls, [])      (* string(oneChar): the byte is converted as a rune *)
+      (92 :: firstn (j - i) (skipn i ch), j, ln, ls, esc_err (255 <? dec_value 3 (skipn i ch) 0))
+    else (go_string_of_byte c, S i, ln, ls, esc_err true)      (* string(oneChar): the byte is converted as a rune *)
   end.
 
 Section WithOracle.
+  Context {fx : FxEscape}.
   (* rune count of the GBK-decoded text: only consulted when the UTF-8 detector rejects the string *)
   Variable gbk_runes : list N -> Z.
 
@@ -582,3 +625,6 @@ Section WithOracle.
   Definition lex_all (bs : list N) : Res (list ltok) :=
     lex_loop (S (S (length bs))) None None (skip_first_line bs) [].
 End WithOracle.
+
+(* the code in /repo: repaired (fix d2887af). Every use of the lexer that does not name a variant means this one. *)
+#[global] Instance fx_deployed : FxEscape := true.
